@@ -48,6 +48,11 @@ RULE = ("Values: Hypothesis draws family, order (0..3 forced, otherwise uniform 
         "separate objects, the same row objects, or the very table object given as cosine table -: the sag must be hypot(a, b) Q2d(n, m, u, t - atan2(b, a)/m) "
         "and the returned slopes / hypot(a, b) orthonormal among themselves and against the complex-step slopes of the turned Q2d.  zernike_nm, Q2d, xy "
         "and hopkins are also called with one array object for two coordinate arguments (r and t, x and y, r and H).  "
+        "Jacobi parameter pairs (values, Gram matrices, jacobi.weight, jacobi_seq) are also drawn nearly, but not exactly, on every special case that is "
+        "defined by an equality: alpha ~ beta, alpha ~ -beta, alpha + beta ~ -1, the four Chebyshev half-integer pairs, (0, 0), (0, m) - one or both parameters "
+        "displaced by a relative 1e-12 .. 1e-4 (unchanged code against scipy there: <= 3e-12 up to order 120).  Boolean options (norm= of zernike_nm / "
+        "zernike_nm_seq, cartesian_grid= of xy) are given as the object True / False, as a numpy bool (element of a boolean array, result of a comparison of "
+        "numpy scalars) and as 1 / 0; the (n, m) terms of Q2d_nm_c_to_a_b ('iterable') also as zip(ns, ms) / a generator expression.  "
         "Non-trivial = order >= 6 or non-tabulated shape parameter or scalar / N-D points or a Gram entry with m != n or a non-default presentation "
         "of the arguments.")
 ASSUMPTIONS = [
@@ -318,7 +323,9 @@ def strat_xy(tier):
         'grid': st.sampled_from(['mesh', 'mesh', 'free']), 'gshape': st.tuples(s, s).map(list), 'shape': point_shapes(), 'seed': U.seeds,
         'v': variants(('f64', 'f32', 'int')),
         # a coordinate that is exactly zero everywhere: the on-axis field point H = 0 (H^0 = 1), the pupil centre r = 0, the meridian t = 0
-        'zero': st.sampled_from(['none', 'none', 'none', 'H', 'H', 'r', 't']), 'alias': ALIAS})
+        'zero': st.sampled_from(['none', 'none', 'none', 'H', 'H', 'r', 't']), 'alias': ALIAS,
+        # cartesian_grid= as the object True / False (True: left at its default), a numpy bool, 1 / 0
+        'cart_as': st.sampled_from(FLAG_KINDS)})
 
 
 def ipow(x, k):
@@ -357,12 +364,15 @@ def check_xy(case, ctx):
             x, _ = make_points(case['seed'], shape, -2.0, 2.0, False, salt=1, kind=kind)
             y, _ = make_points(case['seed'], shape, -2.0, 2.0, False, salt=2, kind=kind)
             kw = {'cartesian_grid': False}
+        cart_as = case.get('cart_as', 'bool')
+        if cart_as != 'bool':
+            kw = {'cartesian_grid': flag_as(grid == 'mesh', cart_as)}
         alias = bool(case.get('alias', False)) and grid == 'free'
         if alias:
             y = x
-        ctx.label('x-is-y' if alias else 'x-and-y-separate')
+        ctx.label('x-is-y' if alias else 'x-and-y-separate', 'cartesian_grid-as:' + cart_as)
         nt = var_labels(ctx, v, shape)
-        ctx.nt(nt or m + n >= 6 or 0 in (m, n) or grid == 'free')
+        ctx.nt(nt or m + n >= 6 or 0 in (m, n) or grid == 'free' or case.get('cart_as', 'bool') != 'bool')
         xarg = present(x, shape, v)
         yarg = xarg if alias else present(y, shape, v, layout=v['layout2'])
         want = ipow(x, m) * ipow(y, n)
@@ -374,7 +384,7 @@ def check_xy(case, ctx):
             x32 = as32(xarg)
             call(ctx, 'float32', xy, m, n, x32, x32 if alias else as32(yarg), **kw)
         got = call(ctx, grid + (':x-is-y' if alias else ''), xy, m, n, xarg, yarg, **kw)
-        verify(got, 'xy:x-is-y' if alias else 'xy')
+        verify(got, ('xy:x-is-y' if alias else 'xy') + ('' if cart_as == 'bool' else ':cartesian_grid-given-as-' + cart_as))
         reuse_check(ctx, v, 'xy', got, (xarg, yarg), lambda: ctx.call(xy, n + 1, m, xarg, yarg, **kw), lambda: ctx.call(xy, m, n, xarg, yarg, **kw), verify)
     else:
         a, b, c, shape = case['a'], case['b'], case['c'], case['shape']
@@ -933,7 +943,9 @@ def strat_q2d_onehot(tier):
     mode = st.tuples(st.integers(0, NN), st.one_of(st.integers(-4, 4), st.integers(-10, 10), st.sampled_from([-14, 14, 20, -20]))).map(list)
     return st.fixed_dictionaries({'nms': st.lists(mode, min_size=1, max_size=6, unique_by=lambda t: (t[0], t[1])),
                                   'table': st.sampled_from(['packer-one', 'packer-all', 'direct', 'direct-all']),
-                                  'cs_as': st.sampled_from(['list', 'list', 'tuple', 'array']), 'layout': U.layouts})
+                                  'cs_as': st.sampled_from(['list', 'list', 'tuple', 'array']), 'layout': U.layouts,
+                                  # the (n, m) terms of the packer ('nms : iterable'): a list, or something that can be walked only once
+                                  'nms_as': st.sampled_from(['list', 'list', 'zip', 'generator'])})
 
 
 def q2d_table(nms, k, how):
@@ -969,13 +981,19 @@ def check_q2d_onehot(case, ctx):
     Ug, Tg = np.meshgrid(un, th, indexing='ij')
     Ua, Ta = U.relayout(Ug.copy(), lay), U.relayout(Tg.copy(), lay)
     ctx.tally('gram_entries', 2 * len(nms) ** 2)
-    ctx.label('table:' + table, 'layout:' + lay, 'cs-as:' + cs_as, 'modes=%d' % len(nms))
+    nms_as = case.get('nms_as', 'list') if table.startswith('packer') else 'list'
+    ctx.label('table:' + table, 'layout:' + lay, 'cs-as:' + cs_as, 'modes=%d' % len(nms), 'packer-terms-as:' + nms_as)
     rows_a, rows_c = [], []
     for k, (n, m) in enumerate(nms):
         if table.startswith('packer'):
             use = nms if table == 'packer-all' else [nms[k]]
             cs = [1.0 if j == k else 0.0 for j in range(len(nms))] if table == 'packer-all' else [1.0]
-            cm0, ams, bms = call(ctx, 'one-hot', Q2d_nm_c_to_a_b, [tuple(e) for e in use], cs)
+            terms = [tuple(e) for e in use]
+            if nms_as == 'zip':
+                terms = zip([e[0] for e in use], [e[1] for e in use])
+            elif nms_as == 'generator':
+                terms = (tuple(e) for e in use)
+            cm0, ams, bms = call(ctx, 'one-hot' + ('' if nms_as == 'list' else ':terms-from-a-one-shot-iterable'), Q2d_nm_c_to_a_b, terms, cs)
         else:
             use = nms if table == 'direct-all' else [nms[k]]
             cm0, ams, bms = q2d_contain(*q2d_table(nms, k, 'all' if table == 'direct-all' else 'one'), cs_as)
@@ -1106,7 +1124,9 @@ def _order_list(tier):
     return st.one_of(
         st.tuples(st.integers(0, 3), st.integers(1, 10)).map(lambda t: list(range(t[0], t[0] + t[1]))),
         st.lists(st.integers(0, top), min_size=1, max_size=8, unique=True).map(sorted),
-        st.integers(0, top).map(lambda n: [n]))
+        st.integers(0, top).map(lambda n: [n]),
+        # lists that end at one of the low orders the sequence routines write out before their recurrence loop (each has its own return)
+        st.sampled_from([[0], [1], [0, 1], [2], [0, 2], [1, 2], [0, 1, 2], [3], [0, 3], [2, 3], [0, 1, 2, 3]]))
 
 
 def strat_seq(tier):
